@@ -2,6 +2,7 @@
 // this sandbox). Row-major vector+shape implementation of the yardl::*NDArray API,
 // selected through the documented `overrideArrayHeader` option.
 #pragma once
+#include <utility>
 #include <array>
 #include <cstddef>
 #include <numeric>
